@@ -9,8 +9,8 @@ ids="$@"
 for id in $ids; do
   p=${id%%-*}; n=${id#*-}
   [ -f seeded/$id/patch.diff ] || continue
-  if ! git -C /repo apply --check seeded/$id/patch.diff 2>/dev/null; then echo "$id: patch does not apply"; continue; fi
-  git -C /repo apply seeded/$id/patch.diff
+  if ! git -C /repo apply --check "$PWD/seeded/$id/patch.diff" 2>/dev/null; then echo "$id: patch does not apply"; continue; fi
+  git -C /repo apply "$PWD/seeded/$id/patch.diff"
   ./check $p --tier quick > /tmp/vseed-log-$p-$n.txt 2>&1
   rc=$?
   git -C /repo checkout -- .
